@@ -1,8 +1,11 @@
 (* Properties_C07.v -- C07: backend vector and matrix-vector primitives equal their
    algebraic definitions.  Statements only; proofs live in KernelsProofs.v.
    "any S": holds for every Scalar record (so also for floats with NaN/Inf);
-   "ring": for every commutative ring with decidable equality, closed at Qc. *)
+   "ring": for every commutative ring with decidable equality, closed at Qc;
+   "nc ring": for every NON-commutative ring (block values static_matrix<T,b,b>), closed at BlockS QcS b;
+   complex values: ComplexS T (std::complex<T>), a commutative ring with conjugation, closed at ComplexS QcS. *)
 From Amgcl Require Import Scalar QcInst Vec Crs Kernels KernelsProofs.
+From Amgcl Require Import NcRing NcKernels NcKernelsProofs BlockInst NcRingBlock BlockKernels ComplexInst ComplexKernels.
 Local Open Scope S_scope.
 
 (* --- zero output coefficient: the old output content is irrelevant (any S) --- *)
@@ -126,4 +129,238 @@ Example C07_nonvacuous :
   let A : crs QcS := mkCrs 3 [[(0, qc 1 1); (1, qc 1 2)]; [(2, qc 3 1)]]%nat in
   wf A = true /\ length [qc 7 1; qc 8 1] = nrows A /\
   spmv (qc 2 1) A [qc 1 1; qc 2 1; qc 3 1] (qc 0 1) [qc 7 1; qc 8 1] = [qc 4 1; qc 18 1].
+Proof. vm_compute. repeat split; reflexivity. Qed.
+
+(* ================================================================== *)
+(* Block and complex value types.
+   "nc ring": every NON-commutative ring with decidable equality (ncring_theory, NcRing.v) -- the statements are
+   literally the formulas above, which keep the operand order of the C++ (matrix entry LEFT of the vector entry,
+   coefficient LEFT of everything, x_i * adj(y_i)); closed at BlockS QcS b = static_matrix<Q,b,b> for EVERY b. *)
+Section NcRing.
+Variable S : Scalar.
+Hypothesis Hnc : ncring_theory S.
+Hypothesis Seqb : seqb_spec S.
+
+Theorem C07_nc_spmv_formula alpha (A : crs S) (x : vec S) beta (y : vec S) i :
+  wf A = true -> length y = nrows A -> i < nrows A ->
+  vget (spmv alpha A x beta y) i = alpha * Ax A x i + beta * vget y i.
+Proof. exact (nc_spmv_spec Hnc Seqb alpha A x beta y i). Qed.
+
+Theorem C07_nc_residual_formula (f : vec S) (A : crs S) (x r : vec S) i :
+  wf A = true -> length f = nrows A -> length r = nrows A -> i < nrows A ->
+  vget (residual f A x r) i = vget f i - Ax A x i.
+Proof. exact (nc_residual_spec Hnc f A x r i). Qed.
+
+Theorem C07_nc_axpby_formula a (x : vec S) b (y : vec S) i : length y = length x -> i < length x ->
+  vget (axpby a x b y) i = a * vget x i + b * vget y i.
+Proof. exact (nc_axpby_spec Hnc Seqb a x b y i). Qed.
+
+Theorem C07_nc_axpbypcz_formula a (x : vec S) b (y : vec S) c (z : vec S) i :
+  length y = length x -> length z = length x -> i < length x ->
+  vget (axpbypcz a x b y c z) i = a * vget x i + b * vget y i + c * vget z i.
+Proof. exact (nc_axpbypcz_spec Hnc Seqb a x b y c z i). Qed.
+
+(* z_i' = (a * M_i) * y_i + b * z_i *)
+Theorem C07_nc_vmul_formula a (x y : vec S) b (z : vec S) i :
+  length y = length x -> length z = length x -> i < length x ->
+  vget (vmul a x y b z) i = a * vget x i * vget y i + b * vget z i.
+Proof. exact (nc_vmul_spec Hnc Seqb a x y b z i). Qed.
+
+Theorem C07_nc_lin_comb_formula c0 (v0 : vec S) cv alpha (y : vec S) i :
+  length v0 = length y -> all_len (length y) cv -> i < length y ->
+  vget (lin_comb ((c0, v0) :: cv) alpha y) i = lc_sum ((c0, v0) :: cv) i + alpha * vget y i.
+Proof. exact (nc_lin_comb_spec Hnc Seqb c0 v0 cv alpha y i). Qed.
+
+(* sum_i x_i * adj(y_i), in that order; per-thread Kahan sums over any chunking give the same value *)
+Theorem C07_nc_inner_product_serial (x y : vec S) : inner_product_serial x y = dot x y.
+Proof. exact (nc_inner_product_serial_spec Hnc x y). Qed.
+
+Theorem C07_nc_inner_product_parallel lens (x y : vec S) :
+  length (combine x y) <= fold_right Nat.add 0 lens ->
+  inner_product_parallel lens x y = inner_product_serial x y.
+Proof. exact (nc_inner_product_parallel_spec Hnc lens x y). Qed.
+End NcRing.
+Print Assumptions C07_nc_spmv_formula.
+Print Assumptions C07_nc_residual_formula.
+Print Assumptions C07_nc_axpby_formula.
+Print Assumptions C07_nc_axpbypcz_formula.
+Print Assumptions C07_nc_vmul_formula.
+Print Assumptions C07_nc_lin_comb_formula.
+Print Assumptions C07_nc_inner_product_serial.
+Print Assumptions C07_nc_inner_product_parallel.
+
+(* static_matrix<T,b,b> over a commutative ring T: the hypotheses above hold (NcRingBlock.v) *)
+Section Blocks.
+Variable S0 : Scalar.
+Variable b : nat.
+Hypothesis Srt : Sring S0.
+Hypothesis Seqb0 : seqb_spec S0.
+Local Notation B := (BlockS S0 b).
+
+Theorem C07_block_values_nc_ring : ncring_theory B /\ seqb_spec B.
+Proof. exact (conj (BlockS_ncring S0 b Srt) (BlockS_eqb S0 b Seqb0)). Qed.
+
+(* "block values": the block SpMV with base-scalar coefficients IS the scalar SpMV formula of the expanded
+   (unblocked) matrix on the flattened vectors: component k of entry I is row I*b+k *)
+Theorem C07_block_spmv_expanded (alpha beta : S0) (A : crs B) (X Y : list (blk S0 b)) I k :
+  wf A = true -> length Y = nrows A -> I < nrows A -> k < b ->
+  blk_get (vget (S := B) (spmv (S := B) (blk_embed S0 b alpha) A X (blk_embed S0 b beta) Y) I) k 0 =
+  alpha * sumn (fun j => expand_get S0 b A (I * b + k) j * flat_get S0 b X j) (ncols A * b)
+  + beta * flat_get S0 b Y (I * b + k).
+Proof. exact (block_spmv_expanded S0 b Srt Seqb0 alpha beta A X Y I k). Qed.
+
+Theorem C07_block_residual_expanded (F : list (blk S0 b)) (A : crs B) (X Rr : list (blk S0 b)) I k :
+  wf A = true -> length F = nrows A -> length Rr = nrows A -> I < nrows A -> k < b ->
+  blk_get (vget (S := B) (residual (S := B) F A X Rr) I) k 0 =
+  flat_get S0 b F (I * b + k) - sumn (fun j => expand_get S0 b A (I * b + k) j * flat_get S0 b X j) (ncols A * b).
+Proof. exact (block_residual_expanded S0 b Srt F A X Rr I k). Qed.
+
+(* vector entries (static_matrix<T,b,1>, carried as column-0 blocks) stay vector entries, for ANY coefficients *)
+Theorem C07_block_spmv_keeps_vector_entries (alpha beta : B) (A : crs B) (X Y : list (blk S0 b)) I :
+  wf A = true -> length Y = nrows A -> I < nrows A ->
+  (forall J, is_col S0 b (vget (S := B) X J)) -> is_col S0 b (vget (S := B) Y I) ->
+  is_col S0 b (vget (S := B) (spmv (S := B) alpha A X beta Y) I).
+Proof. exact (block_spmv_is_col S0 b Srt Seqb0 alpha beta A X Y I). Qed.
+
+(* "scalar vectors may be passed where block vectors are expected with identical results"
+   (backend::reinterpret_as_rhs): the block view of a scalar vector x has x[I*b+k] as component k of entry I,
+   every entry is a vector entry, and the flattened block view is x *)
+Theorem C07_scalar_vectors_as_block_vectors (x : vec S0) :
+  length (bvec_of_flat S0 b x) = (length x / b)%nat /\
+  (forall I k, I < length x / b -> k < b -> blk_get (vget (S := B) (bvec_of_flat S0 b x) I) k 0 = vget x (I * b + k)) /\
+  (forall I, is_col S0 b (vget (S := B) (bvec_of_flat S0 b x) I)) /\
+  (forall j, 0 < b -> j < length x / b * b -> flat_get S0 b (bvec_of_flat S0 b x) j = vget x j).
+Proof.
+  exact (conj (bvec_of_flat_length S0 b x) (conj (bvec_of_flat_get S0 b x)
+        (conj (bvec_of_flat_is_col S0 b x) (flat_get_bvec_of_flat S0 b x)))).
+Qed.
+
+(* backend::inner_product on vectors with static_matrix<T,b,1> / static_matrix<T,b,b> entries:
+   Kahan serial = per-thread Kahan for any chunking = sum over the entries of math::inner_product(x_i, y_i),
+   where for vector entries math::inner_product(x_i, y_i) = sum_k x_i[k] * adj(y_i[k]) *)
+Theorem C07_block_inner_product (x y : list (blk S0 b)) lens :
+  length (combine x y) <= fold_right Nat.add 0 lens ->
+  bvec_inner_serial S0 b x y = dot_g (R := S0) bvec_ip x y /\
+  bvec_inner_parallel S0 b lens x y = bvec_inner_serial S0 b x y /\
+  bmat_inner_serial S0 b x y = dot_g (R := B) bmat_ip x y /\
+  bmat_inner_parallel S0 b lens x y = bmat_inner_serial S0 b x y.
+Proof.
+  intro H.
+  exact (conj (bvec_inner_serial_spec S0 b Srt x y) (conj (bvec_inner_parallel_spec S0 b Srt lens x y H)
+        (conj (bmat_inner_serial_spec S0 b Srt x y) (bmat_inner_parallel_spec S0 b Srt lens x y H)))).
+Qed.
+
+Theorem C07_block_entry_inner_product (x y : blk S0 b) :
+  bvec_ip x y = dot (blk_col0 x) (blk_col0 y) /\
+  (forall i j, i < b -> j < b ->
+     blk_get (bmat_ip x y) i j = sumn (fun k => blk_get x k i * sadj (blk_get y k j)) b).
+Proof. exact (conj (bvec_ip_spec S0 b Srt x y) (bmat_ip_get S0 b x y)). Qed.
+End Blocks.
+Print Assumptions C07_block_values_nc_ring.
+Print Assumptions C07_block_spmv_expanded.
+Print Assumptions C07_block_residual_expanded.
+Print Assumptions C07_block_spmv_keeps_vector_entries.
+Print Assumptions C07_scalar_vectors_as_block_vectors.
+Print Assumptions C07_block_inner_product.
+Print Assumptions C07_block_entry_inner_product.
+
+(* std::complex<T> over a commutative ring T *)
+Section Complex.
+Variable S0 : Scalar.
+Hypothesis Srt : Sring S0.
+Local Notation C := (ComplexS S0).
+
+(* a commutative ring with an involutive automorphism: ALL the ring theorems above (the C07 formula and
+   inner product theorems) apply to it *)
+Theorem C07_complex_values_ring :
+  Sring C /\ (seqb_spec S0 -> seqb_spec C) /\
+  (forall a b : C, sadj (a + b) = sadj a + sadj b) /\ (forall a b : C, sadj (a * b) = sadj a * sadj b) /\
+  (forall a : C, sadj (sadj a) = a).
+Proof.
+  exact (conj (ComplexS_ring S0 Srt) (conj (ComplexS_eqb S0)
+        (conj (conj_add S0 Srt) (conj (conj_mul S0 Srt) (conj_invol S0 Srt))))).
+Qed.
+
+(* inner_product is linear in the first and CONJUGATE-linear in the second argument, Hermitian *)
+Theorem C07_complex_inner_product_sesquilinear (a : C) (x y : vec C) :
+  inner_product_serial (vscale a x) y = a * inner_product_serial x y /\
+  inner_product_serial x (vscale a y) = sadj a * inner_product_serial x y /\
+  sadj (inner_product_serial x y) = inner_product_serial y x.
+Proof. exact (complex_inner_product_sesquilinear S0 Srt a x y). Qed.
+
+Theorem C07_complex_inner_product_additive (x x' y y' : vec C) :
+  length x = length x' -> length y = length y' ->
+  inner_product_serial (vadd x x') y = inner_product_serial x y + inner_product_serial x' y /\
+  inner_product_serial x (vadd y y') = inner_product_serial x y + inner_product_serial x y'.
+Proof. exact (complex_inner_product_additive S0 Srt x x' y y'). Qed.
+
+Theorem C07_complex_inner_product_parallel lens (a : C) (x y : vec C) :
+  length (combine x y) <= fold_right Nat.add 0 lens ->
+  inner_product_parallel lens x y = dot x y /\
+  inner_product_parallel lens (vscale a x) y = a * inner_product_parallel lens x y /\
+  inner_product_parallel lens x (vscale a y) = sadj a * inner_product_parallel lens x y.
+Proof. exact (complex_inner_product_parallel S0 Srt lens a x y). Qed.
+
+Theorem C07_complex_inner_product_self_real (x : vec C) : c_im (inner_product_serial x x) = s0.
+Proof. exact (complex_inner_self_real S0 Srt x). Qed.
+End Complex.
+Print Assumptions C07_complex_values_ring.
+Print Assumptions C07_complex_inner_product_sesquilinear.
+Print Assumptions C07_complex_inner_product_additive.
+Print Assumptions C07_complex_inner_product_parallel.
+Print Assumptions C07_complex_inner_product_self_real.
+
+(* closed instances: no hypotheses left *)
+Theorem C07_block_spmv_formula_Qc (b : nat) alpha (A : crs (BlockS QcS b)) (x : vec (BlockS QcS b)) beta (y : vec (BlockS QcS b)) i :
+  wf A = true -> length y = nrows A -> i < nrows A ->
+  vget (spmv alpha A x beta y) i = alpha * Ax A x i + beta * vget y i.
+Proof.
+  exact (C07_nc_spmv_formula (BlockS QcS b) (BlockS_ncring QcS b QcS_ring) (BlockS_eqb QcS b QcS_eqb) alpha A x beta y i).
+Qed.
+Print Assumptions C07_block_spmv_formula_Qc.
+
+Theorem C07_block_lin_comb_formula_Qc (b : nat) c0 (v0 : vec (BlockS QcS b)) cv alpha (y : vec (BlockS QcS b)) i :
+  length v0 = length y -> all_len (length y) cv -> i < length y ->
+  vget (lin_comb ((c0, v0) :: cv) alpha y) i = lc_sum ((c0, v0) :: cv) i + alpha * vget y i.
+Proof.
+  exact (C07_nc_lin_comb_formula (BlockS QcS b) (BlockS_ncring QcS b QcS_ring) (BlockS_eqb QcS b QcS_eqb) c0 v0 cv alpha y i).
+Qed.
+Print Assumptions C07_block_lin_comb_formula_Qc.
+
+Theorem C07_block_spmv_expanded_Qc (b : nat) (alpha beta : QcS) (A : crs (BlockS QcS b)) (X Y : list (blk QcS b)) I k :
+  wf A = true -> length Y = nrows A -> I < nrows A -> k < b ->
+  blk_get (vget (S := BlockS QcS b) (spmv (S := BlockS QcS b) (blk_embed QcS b alpha) A X (blk_embed QcS b beta) Y) I) k 0 =
+  alpha * sumn (fun j => expand_get QcS b A (I * b + k) j * flat_get QcS b X j) (ncols A * b)
+  + beta * flat_get QcS b Y (I * b + k).
+Proof. exact (C07_block_spmv_expanded QcS b QcS_ring QcS_eqb alpha beta A X Y I k). Qed.
+Print Assumptions C07_block_spmv_expanded_Qc.
+
+Theorem C07_complex_inner_product_sesquilinear_Qc (a : CQcS) (x y : vec CQcS) :
+  inner_product_serial (vscale a x) y = a * inner_product_serial x y /\
+  inner_product_serial x (vscale a y) = sadj a * inner_product_serial x y /\
+  sadj (inner_product_serial x y) = inner_product_serial y x.
+Proof. exact (C07_complex_inner_product_sesquilinear QcS QcS_ring a x y). Qed.
+Print Assumptions C07_complex_inner_product_sesquilinear_Qc.
+
+Theorem C07_complex_spmv_formula_Qc alpha (A : crs CQcS) (x : vec CQcS) beta (y : vec CQcS) i :
+  wf A = true -> length y = nrows A -> i < nrows A ->
+  vget (spmv alpha A x beta y) i = alpha * Ax A x i + beta * vget y i.
+Proof. exact (C07_spmv_formula CQcS CQcS_ring CQcS_eqb alpha A x beta y i). Qed.
+Print Assumptions C07_complex_spmv_formula_Qc.
+
+(* non-vacuity: 2 x 2 blocks over Qc do NOT commute (so the operand order in the nc theorems is real information),
+   and conjugation is not the identity *)
+Example C07_blocks_do_not_commute :
+  let a : BlockS QcS 2 := blk_of_list QcS 2 [qc 0 1; qc 1 1; qc 0 1; qc 0 1] in
+  let c : BlockS QcS 2 := blk_of_list QcS 2 [qc 0 1; qc 0 1; qc 1 1; qc 0 1] in
+  seqb (a * c) (c * a) = false.
+Proof. vm_compute. reflexivity. Qed.
+
+Example C07_conjugate_linear_in_second_argument :
+  let i_ : CQcS := (qc 0 1, qc 1 1) in
+  let x : vec CQcS := [(qc 1 1, qc 2 1); (qc 3 1, qc 4 1)] in
+  let y : vec CQcS := [(qc 0 1, qc 1 1); (qc 1 1, qc 0 1)] in
+  seqb (inner_product_serial x y) ((qc 5 1, qc 3 1) : T CQcS) = true /\
+  seqb (inner_product_serial x (vscale i_ y)) ((qc 3 1, qc (-5) 1) : T CQcS) = true /\
+  seqb (inner_product_serial (vscale i_ x) y) ((qc (-3) 1, qc 5 1) : T CQcS) = true.
 Proof. vm_compute. repeat split; reflexivity. Qed.
